@@ -14,8 +14,9 @@ def xlinkNs : String := "http://www.w3.org/1999/xlink"
 abbrev Attrs := List (String × String)
 
 inductive Node
-  /-- `tag` and attribute names are in Clark notation `{namespace}local` or plain -/
-  | elem (tag : String) (attrs : Attrs) (children : List Node)
+  /-- `tag` and attribute names are in Clark notation `{namespace}local` or plain;
+      `uid` stands for the Python object identity of the lxml element -/
+  | elem (uid : Nat) (tag : String) (attrs : Attrs) (children : List Node)
   | comment
   | pi
   | text (s : String)
@@ -35,7 +36,7 @@ def splitNs (name : String) : Option String × String :=
 def stripNs (name : String) : String := (splitNs name).2
 
 def isElem : Node → Bool
-  | .elem _ _ _ => true
+  | .elem _ _ _ _ => true
   | _ => false
 
 /-- `_is_redundant(tag)`: comments and processing instructions -/
@@ -50,29 +51,38 @@ def isLxmlNode : Node → Bool
   | _ => true
 
 def tag : Node → String
-  | .elem t _ _ => t
+  | .elem _ t _ _ => t
   | _ => ""
+
+def uid : Node → Nat
+  | .elem u _ _ _ => u
+  | _ => 0
 
 def localTag (n : Node) : String := stripNs n.tag
 
 def attrs : Node → Attrs
-  | .elem _ a _ => a
+  | .elem _ _ a _ => a
   | _ => []
 
 def children : Node → List Node
-  | .elem _ _ c => c
+  | .elem _ _ _ c => c
   | _ => []
 
 def getAttr (n : Node) (k : String) : Option String := Style.getKV n.attrs k
 
 def setAttrs (n : Node) (a : Attrs) : Node :=
   match n with
-  | .elem t _ c => .elem t a c
+  | .elem u t _ c => .elem u t a c
   | x => x
 
 def setChildren (n : Node) (c : List Node) : Node :=
   match n with
-  | .elem t a _ => .elem t a c
+  | .elem u t a _ => .elem u t a c
+  | x => x
+
+def setTag (n : Node) (t : String) : Node :=
+  match n with
+  | .elem u _ a c => .elem u t a c
   | x => x
 
 def svgTag (l : String) : String := "{" ++ svgNs ++ "}" ++ l
